@@ -94,13 +94,13 @@ theorem exp_step {n k : Nat → Nat} (hk : ∀ g, k g ≤ n g) {m m' M : Mon} {e
   cases e with
   | created g c =>
     obtain ⟨hm, hg⟩ := k1 g c rfl
-    have hM : ∀ p ∈ M.live, p.1 = g := fun p hp => hg _ (e1 p hp).1
+    have hM : ∀ p ∈ M.live, p.1 = g := fun p hp => hg (p.1, 0) (e1 p hp).1
     exact ⟨M, run_created_list M g _ hM, by subst hm; exact ⟨e1, e2, e3, e4, e5, e6, e7, e8, e9⟩⟩
   | started g c =>
     obtain ⟨hm, hg⟩ := k2 g c rfl
     have hc : c = 0 := by simpa [TEv.idx0] using he
     subst hc
-    have hM : ∀ p ∈ M.live, p.1 = g := fun p hp => hg _ (e1 p hp).1
+    have hM : ∀ p ∈ M.live, p.1 = g := fun p hp => hg (p.1, 0) (e1 p hp).1
     refine ⟨_, run_started_list M g _ hM, ?_⟩
     subst hm
     refine ⟨?_, e2, e3, e4, e5, e6, e7, e8, e9⟩
@@ -157,11 +157,12 @@ theorem exp_step {n k : Nat → Nat} (hk : ∀ g, k g ≤ n g) {m m' M : Mon} {e
   | quiet =>
     obtain ⟨hm, hq⟩ := k8 rfl
     refine ⟨M, ?_, ?_⟩
-    · have : ¬ (M.req = true ∧ M.ret.isNone = true) := by
-        rw [e6, e9]; intro ⟨h1, h2⟩; have := hq h1; simp [Option.isNone_iff_eq_none.1 h2] at this
-      simp only [expand, Mon.run_cons, Mon.step]
-      simp only [Bool.and_eq_true] at *
-      simp [this, Mon.run]
+    · by_cases hreq : m.req = true
+      · have h2 := hq hreq
+        cases hret : m.ret with
+        | none => simp [hret] at h2
+        | some b => simp [expand, Mon.run, Mon.step, e6, e9, hreq, hret]
+      · simp [expand, Mon.run, Mon.step, e6, hreq]
     · subst hm; exact ⟨e1, e2, e3, e4, e5, e6, e7, e8, e9⟩
   | ret ok =>
     obtain ⟨hm, hl, hs⟩ := k9 ok rfl
@@ -192,5 +193,63 @@ theorem exp_run {n k : Nat → Nat} (hk : ∀ g, k g ≤ n g) {m m' M : Mon} {t 
       refine ⟨M2, ?_, hE2⟩
       simp only [List.flatMap_cons]
       rw [Mon.run_append_ok hr1]; exact hr2
+
+/-- the model only ever logs service-level events (component index 0) -/
+def LogIdx0 (s : S) : Prop := ∀ e ∈ s.log, e.idx0 = true
+
+theorem logIdx0_fire (v : Variant) {s s' : S} {l : Label} (hl : LogIdx0 s) (h : fire v s l = some s') : LogIdx0 s' := by
+  unfold LogIdx0 at *
+  cases l with
+  | call =>
+    simp only [fire, S.emit, Option.some.injEq] at h
+    by_cases hh : v.honours s.st = true <;> simp only [hh, if_true, if_false, Bool.false_eq_true] at h <;> subst h <;>
+      (intro e he; simp only [List.mem_append, List.mem_singleton] at he; rcases he with he | rfl <;> first | exact hl e he | rfl)
+  | close =>
+    simp only [fire] at h
+    split at h
+    · simp only [Option.some.injEq] at h; subst h; exact hl
+    · cases h
+  | cancel => simp only [fire, Option.some.injEq] at h; subst h; exact hl
+  | post e => cases e <;> simp only [fire, postEv, Option.some.injEq, reduceCtorEq] at h <;> first | (subst h; exact hl) | cases h
+  | begin =>
+    simp only [fire] at h
+    split at h
+    · simp only [Option.some.injEq] at h; subst h; exact hl
+    · cases h
+  | pick e =>
+    simp only [fire] at h
+    split at h
+    · cases e <;> simp only [pickEv, leave, S.emit] at h <;> split at h <;> simp only [Option.some.injEq, reduceCtorEq] at h
+      all_goals subst h
+      all_goals (intro e he; simp only [List.mem_append, List.mem_singleton] at he)
+      all_goals (first | exact hl e he | (rcases he with he | rfl <;> first | exact hl e he | rfl))
+    · cases h
+  | step ok =>
+    simp only [fire] at h
+    cases hpc : s.pc <;> cases ok <;>
+      simp only [stepRun, hpc, setSt, S.emit, Option.some.injEq, if_true, if_false, Bool.false_eq_true, reduceCtorEq] at h
+    all_goals subst h
+    all_goals (try (rename_i rl; cases rl))
+    all_goals (cases hsvc : s.svc)
+    all_goals simp only [failSetup, svcShutdown, S.emit, hsvc, if_true, if_false, Bool.false_eq_true]
+    all_goals (try simp only [List.forall_mem_append, List.forall_mem_singleton, List.forall_mem_cons, List.not_mem_nil,
+      false_implies, implies_true, and_true])
+    all_goals (first
+      | exact hl | exact ⟨hl, rfl⟩ | exact ⟨⟨hl, rfl⟩, rfl⟩ | exact ⟨⟨⟨hl, rfl⟩, rfl⟩, rfl⟩
+      | exact ⟨hl, rfl, rfl⟩ | exact ⟨hl, rfl, rfl, rfl⟩ | exact ⟨⟨hl, rfl⟩, rfl, rfl⟩)
+
+theorem logIdx0_reachable {v : Variant} {s : S} (h : Reachable v s) : LogIdx0 s := by
+  obtain ⟨ls, h⟩ := h
+  suffices ∀ (ls : List Label) (s0 : S), LogIdx0 s0 → runFrom v s0 ls = some s → LogIdx0 s from
+    this ls init (by simp [LogIdx0, init]) h
+  intro ls
+  induction ls with
+  | nil => intro s0 hl h; simp only [runFrom, Option.some.injEq] at h; subst h; exact hl
+  | cons l ls ih =>
+    intro s0 hl h
+    simp only [runFrom] at h
+    cases hf : fire v s0 l with
+    | none => simp [hf] at h
+    | some s1 => simp only [hf, Option.bind_some] at h; exact ih s1 (logIdx0_fire v hl hf) h
 
 end OtelVerif.C20
